@@ -34,7 +34,8 @@ def gen_case(rng):
     cwd, root, inputs = "root", ".", ["a.b.yaml"]
     kind = rng.choice(["benign", "parent-dotdot", "parent-abs", "link-rel", "link-abs", "link-dir", "link-chain",
                        "input-outside", "root-sub", "root-dotdot", "parent-glob", "filename-chain-link", "benign-link-inside",
-                       "link-dotdot-inside", "sibling-parent", "sibling-link", "sibling-link-dir", "sibling-link-abs"])
+                       "link-dotdot-inside", "sibling-parent", "sibling-link", "sibling-link-dir", "sibling-link-abs",
+                       "glob-dir-link", "glob-dir-link", "glob-dir-inside", "parent-candidate-link", "link-abs-inside-chain", "link-abs-inside-dir"])
     sib = rng.choice(["root-secrets", "root.bak", "rootx"])
     if kind == "sibling-parent":
         layout["root/a.b.yaml"]["docs"] = [dict(over, **{"$parent": rng.choice([f"../{sib}/decoy", "{W}/" + sib + "/decoy"])})]
@@ -84,6 +85,33 @@ def gen_case(rng):
     elif kind == "link-dotdot-inside":
         layout["root/sub/up.yaml"] = {"link": "../a.yaml"}
         inputs = ["sub/up.yaml"]
+    if kind == "link-abs-inside-chain":
+        # an ABSOLUTE link whose target is lexically inside the root, and that target leaves the root on a second hop
+        layout["root/l.yaml"] = {"link": "{W}/root/hop.yaml"}
+        layout["root/hop.yaml"] = {"link": rng.choice(["../outside/decoy.yaml", "../secret.yaml", "{W}/outside/decoy.yaml"])}
+        inputs = ["l.yaml"]
+    elif kind == "link-abs-inside-dir":
+        # ... or goes through a directory link that leaves the root
+        layout["root/l.yaml"] = {"link": "{W}/root/ld/decoy.yaml"}
+        layout["root/ld"] = {"link": rng.choice(["../outside", "{W}/outside"])}
+        inputs = [rng.choice(["l.yaml", "a.c.yaml"])]
+        if inputs == ["a.c.yaml"]:
+            layout["root/a.c.yaml"] = {"fmt": "yaml", "docs": [{"$parent": "l", "top": 2}]}
+    if kind in ("glob-dir-link", "glob-dir-inside"):
+        # a $parent pattern with a wildcard DIRECTORY: one of the directories it can match is a link that leaves the
+        # root; whether a decoy exists behind it must not decide anything
+        layout["root/sub/decoy.yaml"] = {"fmt": "yaml", "docs": [{"inside": 1}]}
+        layout["root/sab/decoy.yaml"] = {"fmt": "yaml", "docs": [{"inside": 2}]}
+        if kind == "glob-dir-link":
+            layout["root/" + rng.choice(["ld", "sld", "t"])] = {"link": rng.choice(["../outside", "{W}/outside", "../" + sib])}
+        pat = rng.choice(["*/decoy", "s*/decoy", "?ub/decoy", "*/dec*", "sub/../*/decoy", "*b/decoy", "./*/decoy"])
+        layout["root/a.b.yaml"]["docs"] = [dict(over, **{"$parent": pat})]
+    elif kind == "parent-candidate-link":
+        # the only candidate for the parent layer `a` is a link that leaves the root (to a decoy that may or may not exist)
+        del layout["root/a.yaml"]
+        layout["outside/a.json"] = {"fmt": "json", "docs": [DECOY_A]}
+        decoys = decoys + ["outside/a.json"]
+        layout["root/a.json"] = {"link": rng.choice(["../outside/a.json", "{W}/outside/a.json"])}
     opts = {"inputs": inputs, "format": "json", "root": root}
     return {"layout": layout, "cwd": cwd, "opts": opts, "meta": {"kind": kind}, "decoys": decoys}
 
